@@ -17,7 +17,7 @@ inductive GExpr where
   | and (a b : GExpr) | or (a b : GExpr) | not (a : GExpr)
   | tt | ff
   | unknown (what : String)             -- the extractor did not recognise the site
-deriving Repr, DecidableEq, Inhabited
+deriving Repr, DecidableEq, Inhabited, BEq
 
 namespace GExpr
 
